@@ -32,6 +32,10 @@ def configs(tier):
                     checks.reverse()
                 result.append({"preset": preset, "header": 0, "fields": ["ka", "v"], "checks": checks, "family": "both"})
         result.append({"preset": preset, "header": 0, "fields": ["ka", "kb"], "checks": [["u1", "IsUnique", "ka"], ["u2", "IsUnique", "kb"]], "family": "two-unique"})
+        result.append({"preset": preset, "header": 0, "fields": ["kt1", "kt2"], "checks": [["u", "IsUnique", "kt1, kt2"]], "family": "unique"})
+        # an optional counted field: the empty value is a value like any other
+        for rule in ("kind == 1", "kind >= 2", "kind < 2", "kind != 1", "kind <= 0", "kind > 2"):
+            result.append({"preset": preset, "header": 0, "fields": ["ka", "kind"], "checks": [["d", "DistinctCount", rule]], "family": "distinct"})
         # keys and counted values that differ only in the position of a blank
         result.append({"preset": preset, "header": 0, "fields": ["kl"], "checks": [["u", "IsUnique", "kl"]], "family": "unique"})
         for rule in ("kl >= 3", "kl == 2", "kl < 4"):
@@ -63,6 +67,9 @@ def judge(case, part):
     raw = rowmodel.stored_rows(fmt, decls, table)
     header = config.get("header", 0)
     prediction = rowmodel.predict(decls, config["checks"], header, None, raw)
+    if prediction["run"].keys_not_registered:
+        # the table holds a row that a later-declared IsUnique check rejected after an earlier-declared one had passed it (see KF-C05-key-of-rejected-row)
+        tag = "%s|%s|after-a-row-rejected-by-a-later-IsUnique:%%s" % (config["preset"], config["family"])
     part.evaluations += 1
     if any(e[0] == "rej" and e[1]["class"] == "CheckError" for e in prediction["events"]) or prediction["close"]:
         part.nontrivial += 1
